@@ -160,6 +160,9 @@ impl ObjectModel<SimVM> for SimObjectModel {
     const LOCAL_LOS_MARK_NURSERY_SPEC: VMLocalLOSMarkNurserySpec = specs::LOS;
 
     const OBJECT_REF_OFFSET_LOWER_BOUND: isize = obj::REF_OFFSET as isize;
+    /// Required by the Compressor (it asserts it); true exactly in the variants whose object
+    /// reference is the object start.
+    const UNIFIED_OBJECT_REFERENCE_ADDRESS: bool = obj::REF_OFFSET == 0;
 
     fn copy(
         from: ObjectReference,
